@@ -276,6 +276,8 @@ class BytesFn(Fn):
         a = self.block(body_some + rest, some_env, k)
         b = self.block(body_none + rest, env, k)
         return f'(match {name} with Some {name} => {a} | None => {b} end)'
+    if isinstance(s, ast.Raise):
+      return 'None'
     if isinstance(s, (ast.Return, ast.If, ast.Assign)) or (isinstance(s, ast.Expr) and isinstance(s.value, ast.Constant)):
       if isinstance(s, ast.Assign) and (len(s.targets) != 1 or isinstance(s.targets[0], ast.Tuple)):
         raise Unsupported('assignment form')
@@ -367,37 +369,535 @@ def _assign_group(target):
   return select
 
 
+# ===========================================================================
+# Object level: constructors, preprocessor chains, delegation guards.
+#
+# Extra types:  fns / fn   (ClientPreprocessor._fns : list F, one function : F)
+#               gfns / gfn (BatchPreprocessor._fns : list G, one function : G)
+#               E (examples), mapping (dict id -> E : association list), optmapping (a dict
+#               comprehension whose lookups may raise KeyError), base / R / D (opaque: the wrapped
+#               FederatedData, a result, a ClientDataset), Z
+# A constructor call `Cls(a1, .., an, kw=..)` is translated to the tuple of its modelled arguments
+# (the `ctors` table says which positions are modelled and what the others must literally be).
+
+TY.update({'fns': '(list F)', 'fn': 'F', 'gfns': '(list G)', 'gfn': 'G', 'E': 'E',
+           'mapping': '(list (bytes * E))', 'optmapping': '(option (list (bytes * E)))',
+           'base': 'Base', 'R': 'R', 'D': 'D', 'cds': '(E * list G)'})
+ELEM = {'fns': 'fn', 'gfns': 'gfn'}
+
+
+class ObjCtx(BytesCtx):
+
+  def __init__(self, names=None, calls=None, ctors=None, subs=None):
+    super().__init__(names, calls)
+    self.ctors = dict(ctors or {})
+    self.subs = dict(subs or {})     # ast.dump of an expression -> (term, type): named stand-ins
+
+  def _expr(self, e, env):
+    key = ast.dump(e)
+    if key in self.subs:
+      return self.subs[key]
+    if isinstance(e, ast.BinOp) and isinstance(e.op, ast.Add) and isinstance(e.right, ast.Tuple):
+      a, ta = self.expr(e.left, env)
+      if ta not in ELEM:
+        raise Unsupported('tuple concatenation on ' + ta)
+      items = [self.expr(x, env, ELEM[ta])[0] for x in e.right.elts]
+      return f'({a} ++ [{"; ".join(items)}])', ta
+    if isinstance(e, ast.BinOp) and isinstance(e.op, ast.Add) and isinstance(e.left, ast.Tuple):
+      b, tb = self.expr(e.right, env)
+      if tb not in ELEM:
+        raise Unsupported('tuple concatenation on ' + tb)
+      items = [self.expr(x, env, ELEM[tb])[0] for x in e.left.elts]
+      return f'([{"; ".join(items)}] ++ {b})', tb
+    if isinstance(e, ast.Compare) and len(e.ops) == 1 and isinstance(e.ops[0], (ast.In, ast.NotIn)):
+      a, _ = self.expr(e.left, env, 'B')
+      b, _ = self.expr(e.comparators[0], env, 'ids')
+      t = f'(bmem {a} {b})'
+      return (t if isinstance(e.ops[0], ast.In) else f'(negb {t})'), 'bool'
+    if isinstance(e, ast.DictComp):
+      return self.dictcomp(e, env)
+    if isinstance(e, ast.Tuple):
+      parts = [self.expr(x, env) for x in e.elts]
+      return '(' + ', '.join(t for t, _ in parts) + ')', tuple(ty for _, ty in parts)
+    if isinstance(e, ast.Call):
+      r = self.objcall(e, env)
+      if r is not None:
+        return r
+    return super()._expr(e, env)
+
+  def dictcomp(self, e, env):
+    # {k: MAPPING[k] for k in IDS}
+    if len(e.generators) != 1 or e.generators[0].ifs or not isinstance(e.generators[0].target, ast.Name):
+      raise Unsupported('dict comprehension shape')
+    v = e.generators[0].target.id
+    ids, _ = self.expr(e.generators[0].iter, env, 'ids')
+    if not (isinstance(e.key, ast.Name) and e.key.id == v and isinstance(e.value, ast.Subscript) and
+            isinstance(e.value.slice, ast.Name) and e.value.slice.id == v):
+      raise Unsupported('dict comprehension is not a restriction')
+    m, _ = self.expr(e.value.value, env, 'mapping')
+    return f'(brestrict {m} {ids})', 'optmapping'
+
+  def objcall(self, e, env):
+    try:
+      f = dotted(e.func)
+    except Unsupported:
+      f = None
+    if f in self.ctors:
+      return self.ctor(f, e, env)
+    if f in self.calls:
+      return None      # the anchor's own call table (handled by Ctx.call)
+    if e.keywords:
+      return None
+    if f == 'sorted' and len(e.args) == 1:
+      a, _ = self.expr(e.args[0], env, 'ids')
+      return f'(bsort {a})', 'ids'
+    if f == 'iter' and len(e.args) == 1:
+      return self.expr(e.args[0], env, 'ids')
+    if f == 'len' and len(e.args) == 1:
+      a, _ = self.expr(e.args[0], env, 'ids')
+      return f'(Z.of_nat (length {a}))', 'Z'
+    if f == 'set' and len(e.args) == 1 and not isinstance(e.args[0], ast.GeneratorExp):
+      a, _ = self.expr(e.args[0], env, 'ids')
+      return f'(bdedup {a})', 'ids'
+    if isinstance(e.func, ast.Attribute):
+      meth = e.func.attr
+      if meth == 'keys' and not e.args:
+        a, ta = self.expr(e.func.value, env)
+        if ta == 'mapping':
+          return f'(map fst {a})', 'ids'
+      if meth == 'difference' and len(e.args) == 1:
+        a, ta = self.expr(e.func.value, env)
+        b, tb = self.expr(e.args[0], env)
+        if ta == 'ids' and tb == 'ids':
+          return f'(filter (fun i : bytes => negb (bmem i {b})) {a})', 'ids'
+    return None
+
+  def ctor(self, f, e, env):
+    """ctors[f] = (positional spec list, keyword spec dict); a spec is a type name (modelled
+    argument) or ('is', dotted python name) (must literally be that expression) or
+    ('const', value) (must be that constant)."""
+    pos, kws = self.ctors[f]
+    if len(e.args) != len(pos):
+      raise Unsupported(f'{f}: {len(e.args)} positional arguments, expected {len(pos)}')
+    parts, types = [], []
+    for a, sp in zip(e.args, pos):
+      self._ctor_arg(f, a, sp, env, parts, types)
+    got = {k.arg: k.value for k in e.keywords}
+    if set(got) != set(kws):
+      raise Unsupported(f'{f}: keywords {sorted(got)}, expected {sorted(kws)}')
+    for k, sp in kws.items():
+      self._ctor_arg(f, got[k], sp, env, parts, types)
+    if len(parts) == 1:
+      return parts[0], types[0]
+    return '(' + ', '.join(parts) + ')', tuple(types)
+
+  def _ctor_arg(self, f, a, sp, env, parts, types):
+    if isinstance(sp, tuple) and sp[0] == 'is':
+      if dotted(a) != sp[1]:
+        raise Unsupported(f'{f}: argument {ast.dump(a)[:60]} is not {sp[1]}')
+    elif isinstance(sp, tuple) and sp[0] == 'const':
+      if not (isinstance(a, ast.Constant) and a.value is sp[1]):
+        raise Unsupported(f'{f}: argument is not the constant {sp[1]}')
+    else:
+      t, _ = self.expr(a, env, sp)
+      parts.append(t)
+      types.append(sp)
+
+
+def _tystr(ty):
+  if isinstance(ty, tuple):
+    return '(' + ' * '.join(_tystr(t) for t in ty) + ')'
+  return TY[ty]
+
+
+def _truthy_ids(test, ctx, env):
+  """`if xs:` on a collection: non-empty."""
+  if isinstance(test, ast.Name):
+    t, ty = ctx.expr(test, env)
+    if ty == 'ids':
+      return f'(negb (bisnil {t}))'
+  return None
+
+
+class ObjFn(BytesFn):
+  """BytesFn + constructor / tuple returns, `a, b = partial_call(..)`, truthiness of id collections,
+  `if not isinstance(x, set): x = set(x)`, assignments to ignorable attributes."""
+
+  def __init__(self, coqname, ctx, ret, ignore_assign=(), partial_calls=()):
+    super().__init__(coqname, ctx, ret)
+    self.ignore_assign = set(ignore_assign)
+    self.partial_calls = dict(partial_calls)   # dotted callee -> (coq function, [arg types], (ret types))
+
+  def block(self, stmts, env, k):
+    if not stmts:
+      return k(env)
+    s, rest = stmts[0], stmts[1:]
+    ctx = self.ctx
+    if isinstance(s, ast.Return):
+      t, ty = ctx.expr(s.value, env)
+      if ty != self.ret:
+        if self.ret == 'optB' and ty == 'B':
+          t = f'(Some {t})'
+        else:
+          raise Unsupported(f'return type {ty}, expected {self.ret}')
+      return f'Some {t}'
+    if isinstance(s, ast.Assign) and len(s.targets) == 1:
+      tgt = s.targets[0]
+      if isinstance(tgt, ast.Attribute) and dotted(tgt) in self.ignore_assign:
+        return self.block(rest, env, k)
+      if isinstance(tgt, ast.Tuple) and isinstance(s.value, ast.Call) and dotted(s.value.func) in self.partial_calls:
+        fn, kinds, rets = self.partial_calls[dotted(s.value.func)]
+        if len(s.value.args) != len(kinds) or len(tgt.elts) != len(rets) or s.value.keywords:
+          raise Unsupported('partial call shape')
+        args = [ctx.expr(a, env, kd)[0] for a, kd in zip(s.value.args, kinds)]
+        names = [ctx.names.get(dotted(x), dotted(x)) for x in tgt.elts]
+        env2 = dict(env)
+        for n, ty in zip(names, rets):
+          env2[n] = ty
+        body = self.block(rest, env2, k)
+        return f'(match {fn} {" ".join(args)} with Some ({", ".join(names)}) => {body} | None => None end)'
+    if isinstance(s, ast.If):
+      test = s.test
+      if (isinstance(test, ast.UnaryOp) and isinstance(test.op, ast.Not) and isinstance(test.operand, ast.Call)
+          and dotted(test.operand.func) == 'isinstance'):
+        # if not isinstance(x, set): x = set(x)     -- afterwards x is a set either way
+        c = test.operand
+        if not (len(c.args) == 2 and isinstance(c.args[0], ast.Name) and dotted(c.args[1]) == 'set' and not s.orelse
+                and len(s.body) == 1 and isinstance(s.body[0], ast.Assign)
+                and isinstance(s.body[0].targets[0], ast.Name) and s.body[0].targets[0].id == c.args[0].id
+                and isinstance(s.body[0].value, ast.Call) and dotted(s.body[0].value.func) == 'set'
+                and len(s.body[0].value.args) == 1 and isinstance(s.body[0].value.args[0], ast.Name)
+                and s.body[0].value.args[0].id == c.args[0].id):
+          raise Unsupported('isinstance guard shape')
+        return self.block(s.body + rest, env, k)
+      tr = _truthy_ids(test, ctx, env)
+      if tr is not None:
+        then = self.block(s.body + rest, env, k)
+        els = self.block(s.orelse + rest, env, k)
+        return f'(if {tr} then {then} else {els})'
+    return super().block(stmts, env, k)
+
+
+def O_fun(qual, coqname, params, ret, names=None, calls=None, ctors=None, subs=None, pyparams=None,
+          ignore_assign=(), partial_calls=(), result=None, extra_params=''):
+  def emit(tree):
+    fd = find_def(tree, qual)
+    if pyparams is not None:
+      got = [a.arg for a in fd.args.args]
+      if got != pyparams:
+        raise Unsupported(f'{qual}: parameters {got}, expected {pyparams}')
+    ctx = ObjCtx(names, calls, ctors, {ast.dump(ast.parse(k, mode='eval').body): v for k, v in (subs or {}).items()})
+    f = ObjFn(coqname, ctx, ret, ignore_assign, partial_calls)
+    env = {n: t for n, t in params}
+
+    def final(env2):
+      if result is None:
+        return 'None'
+      if env2.get(result) != ret:
+        raise Unsupported(f'{qual}: {result} has type {env2.get(result)} at the end')
+      return f'Some {result}'
+    body = f.block(fd.body, env, final)
+    if f.aux:
+      raise Unsupported('loops are not expected here')
+    ps = ' '.join(f'({n} : {_tystr(t)})' for n, t in params)
+    return f'Definition {coqname} {extra_params} {ps} : option {_tystr(ret)} :=\n  {body}.'
+  return emit
+
+
+def _strip_doc(body):
+  return [s for s in body if not (isinstance(s, ast.Expr) and isinstance(s.value, ast.Constant))]
+
+
+def O_chain_call(qual, coqname, fnsT, apply_name, with_id):
+  """ClientPreprocessor.__call__ / BatchPreprocessor.__call__:
+       if not self._fns: return examples
+       out = dict(examples)
+       for f in self._fns: out = f([client_id,] out)
+       <row-consistency assertion>(out)
+       return out"""
+  def emit(tree):
+    fd = find_def(tree, qual)
+    want = ['self', 'client_id', 'examples'] if with_id else ['self', 'examples']
+    if [a.arg for a in fd.args.args] != want:
+      raise Unsupported(f'{qual}: parameters')
+    b = _strip_doc(fd.body)
+    def bad(msg):
+      raise Unsupported(f'{qual}: {msg}')
+    if len(b) != 5:
+      bad('expected 5 statements')
+    s0, s1, s2, s3, s4 = b
+    if not (isinstance(s0, ast.If) and isinstance(s0.test, ast.UnaryOp) and isinstance(s0.test.op, ast.Not)
+            and dotted(s0.test.operand) == 'self._fns' and not s0.orelse and len(s0.body) == 1
+            and isinstance(s0.body[0], ast.Return) and dotted(s0.body[0].value) == 'examples'):
+      bad('empty-chain shortcut')
+    if not (isinstance(s1, ast.Assign) and dotted(s1.targets[0]) == 'out' and isinstance(s1.value, ast.Call)
+            and dotted(s1.value.func) == 'dict' and len(s1.value.args) == 1 and dotted(s1.value.args[0]) == 'examples'):
+      bad('out = dict(examples)')
+    args = ['client_id', 'out'] if with_id else ['out']
+    if not (isinstance(s2, ast.For) and isinstance(s2.target, ast.Name) and dotted(s2.iter) == 'self._fns'
+            and not s2.orelse and len(s2.body) == 1 and isinstance(s2.body[0], ast.Assign)
+            and dotted(s2.body[0].targets[0]) == 'out' and isinstance(s2.body[0].value, ast.Call)
+            and dotted(s2.body[0].value.func) == s2.target.id and not s2.body[0].value.keywords
+            and [dotted(a) for a in s2.body[0].value.args] == args):
+      bad('for f in self._fns: out = f(.., out)')
+    if not (isinstance(s3, ast.Expr) and isinstance(s3.value, ast.Call)
+            and dotted(s3.value.func).endswith('assert_consistent_rows')
+            and [dotted(a) for a in s3.value.args] == ['out']):
+      bad('row-consistency assertion')
+    if not (isinstance(s4, ast.Return) and dotted(s4.value) == 'out'):
+      bad('return out')
+    f = s2.target.id
+    app = f'{apply_name} {f} client_id out' if with_id else f'{apply_name} {f} out'
+    cid = '(client_id : bytes) ' if with_id else ''
+    return (f'Definition {coqname} (fns : {TY[fnsT]}) {cid}(examples : E) : E :=\n'
+            f'  if bisnil fns then examples else\n'
+            f'  let out := examples in\n'
+            f'  let out := fold_left (fun out {f} => {app}) fns out in\n'
+            f'  out.')
+  return emit
+
+
+def O_expr(qual, coqname, params, ret, pick, names=None, calls=None, ctors=None, subs=None, shape=None, extra_params=''):
+  """One expression inside `qual`, chosen by `pick(fd)` after `shape(fd)` accepted the statement structure."""
+  def emit(tree):
+    fd = find_def(tree, qual)
+    if shape is not None:
+      msg = shape(fd)
+      if msg:
+        raise Unsupported(f'{qual}: {msg}')
+    ctx = ObjCtx(names, calls, ctors, {ast.dump(ast.parse(k, mode='eval').body): v for k, v in (subs or {}).items()})
+    env = {n: t for n, t in params}
+    t, ty = ctx.expr(pick(fd), env)
+    if ty != ret:
+      raise Unsupported(f'{qual}: expression has type {ty}, expected {ret}')
+    ps = ' '.join(f'({n} : {_tystr(tt)})' for n, tt in params)
+    return f'Definition {coqname} {extra_params} {ps} : {_tystr(ret)} :=\n  {t}.'
+  return emit
+
+
+def _only_return(fd):
+  b = _strip_doc(fd.body)
+  if len(b) != 1 or not isinstance(b[0], ast.Return):
+    return 'body is not a single return'
+  return None
+
+
+def _ret_value(fd):
+  return _strip_doc(fd.body)[0].value
+
+
+def _guarded_delegate(method):
+  """if client_id not in self._client_ids: raise KeyError ; return self._base.<method>(client_id)"""
+  def shape(fd):
+    b = _strip_doc(fd.body)
+    if len(b) != 2:
+      return 'expected guard + return'
+    g, r = b
+    if not (isinstance(g, ast.If) and not g.orelse and len(g.body) == 1 and isinstance(g.body[0], ast.Raise)
+            and g.body[0].exc is not None and dotted(g.body[0].exc) == 'KeyError'):
+      return 'guard does not raise KeyError'
+    if not (isinstance(r, ast.Return) and isinstance(r.value, ast.Call) and dotted(r.value.func) == 'self._base.' + method
+            and [dotted(a) for a in r.value.args] == ['client_id'] and not r.value.keywords):
+      return 'does not delegate to the base with the same id'
+    return None
+  return shape
+
+
+def _for_yield(iter_src, target_names, guard):
+  """for <targets> in <iter_src>: [if <guard>: raise KeyError | if <guard>: yield ..] yield <item>"""
+  def shape(fd):
+    b = _strip_doc(fd.body)
+    if len(b) != 1 or not isinstance(b[0], ast.For) or b[0].orelse:
+      return 'body is not a single for loop'
+    lp = b[0]
+    tg = [x.id for x in lp.target.elts] if isinstance(lp.target, ast.Tuple) else [lp.target.id]
+    if tg != target_names:
+      return f'loop targets {tg}'
+    if ast.unparse(lp.iter) != iter_src:
+      return f'iterates over {ast.unparse(lp.iter)}, expected {iter_src}'
+    body = lp.body
+    if guard == 'raise':
+      if not (len(body) == 2 and isinstance(body[0], ast.If) and not body[0].orelse and len(body[0].body) == 1
+              and isinstance(body[0].body[0], ast.Raise) and dotted(body[0].body[0].exc) == 'KeyError'
+              and isinstance(body[1], ast.Expr) and isinstance(body[1].value, ast.Yield)):
+        return 'loop body is not guard-raise + yield'
+    elif guard == 'keep':
+      if not (len(body) == 1 and isinstance(body[0], ast.If) and not body[0].orelse and len(body[0].body) == 1
+              and isinstance(body[0].body[0], ast.Expr) and isinstance(body[0].body[0].value, ast.Yield)):
+        return 'loop body is not a guarded yield'
+    else:
+      if not (len(body) == 1 and isinstance(body[0], ast.Expr) and isinstance(body[0].value, ast.Yield)):
+        return 'loop body is not a single yield'
+    return None
+  return shape
+
+
+def _loop(fd):
+  return _strip_doc(fd.body)[0]
+
+
+def _yield_from_get_clients(fd):
+  b = _strip_doc(fd.body)
+  if not (len(b) == 1 and isinstance(b[0], ast.Expr) and isinstance(b[0].value, ast.YieldFrom)
+          and isinstance(b[0].value.value, ast.Call) and dotted(b[0].value.value.func) == 'self.get_clients'
+          and len(b[0].value.value.args) == 1 and not b[0].value.value.keywords):
+    return 'body is not `yield from self.get_clients(..)`'
+  return None
+
+
 PRE = 'From FV Require Import Common.Bytes.\n'
 SELF_RANGE = {'self._start': 'start', 'self._stop': 'stop'}
+SEC = ('Section Obj.\nContext {F G E Base R D : Type}.\n'
+       'Context (applyc : F -> bytes -> E -> E) (applyb : G -> E -> E).\n')
+SUBNAMES = {'self._client_ids': 'client_ids0'}
+SUB_CTOR = {'SubsetFederatedData': (['base', 'ids'], {'validate': ('const', False)})}
+MEM_CTOR = {'InMemoryFederatedData': (['mapping', 'fns', 'gfns'], {})}
+MEM_CTOR_SLICE = {'InMemoryFederatedData': (['optmapping', 'fns', 'gfns'], {})}
+SQL_CTOR = {'SQLiteFederatedData': ([('is', 'self._connection'), ('is', 'self._parse_examples'), 'optB', 'optB', 'fns', 'gfns'], {})}
+PRE_NAMES = {'self._preprocess_client': 'pc', 'self._preprocess_batch': 'pb', 'self._client_to_data_mapping': 'mapping',
+             'self._start': 'start', 'self._stop': 'stop', 'self._client_ids': 'client_ids0'}
+APPEND_CALLS = {'self._preprocess_client.append': ('client_preprocessor_append {0} {1}', ['fns', 'fn'], 'fns'),
+                'self._preprocess_batch.append': ('batch_preprocessor_append {0} {1}', ['gfns', 'gfn'], 'gfns')}
+
+
+def _append_call(ctx, e, env):
+  raise Unsupported('unused')
+
+
+def _method_call(prefix_type, fmt, argkinds, ret, receiver='value'):
+  """call table entry for `self._preprocess_client.append(fn)` (receiver = e.func.value) or
+  `self._preprocess_client(..)` (receiver = e.func): receiver via names map, then args."""
+  def spec(ctx, e, env):
+    recv, _ = ctx.expr(e.func.value if receiver == 'value' else e.func, env, prefix_type)
+    if len(e.args) != len(argkinds) or e.keywords:
+      raise Unsupported('method call arity')
+    args = [ctx.expr(a, env, k)[0] for a, k in zip(e.args, argkinds)]
+    return '(' + fmt.format(recv, *args) + ')', ret
+  return spec
+
+
+CALLS_PRE = {'self._preprocess_client.append': _method_call('fns', 'client_preprocessor_append {0} {1}', ['fn'], 'fns'),
+             'self._preprocess_batch.append': _method_call('gfns', 'batch_preprocessor_append {0} {1}', ['gfn'], 'gfns')}
+
+
+def _base_call(method, argnames):
+  """`self._base.<method>(args)` stands for the already computed result on the wrapped dataset."""
+  def spec(ctx, e, env):
+    if e.keywords or [dotted(a) for a in e.args] != argnames:
+      raise Unsupported(f'self._base.{method}: arguments are not {argnames}')
+    return 'base_result', 'base'
+  return spec
+
 
 MODULES = {
+    'Gen_client_datasets_pre': {
+        'src': 'fedjax/core/client_datasets.py',
+        'preamble': PRE + SEC,
+        'postamble': 'End Obj.\n',
+        'items': [
+            O_expr('BatchPreprocessor.append', 'batch_preprocessor_append', [('fns', 'gfns'), ('fn', 'gfn')], 'gfns',
+                   _ret_value, names={'self._fns': 'fns'}, ctors={'BatchPreprocessor': (['gfns'], {})}, shape=_only_return),
+            O_chain_call('BatchPreprocessor.__call__', 'batch_preprocessor_call', 'gfns', 'applyb', False),
+            # ClientDataset.all_examples: self.preprocessor(self.raw_examples)
+            O_expr('ClientDataset.all_examples', 'client_dataset_all_examples', [('raw_examples', 'E'), ('preprocessor', 'gfns')], 'E',
+                   _ret_value, names={'self.raw_examples': 'raw_examples'}, shape=_only_return,
+                   calls={'self.preprocessor': ('batch_preprocessor_call preprocessor {0}', ['E'], 'E')}),
+        ],
+    },
     'Gen_federated_data': {
         'src': FD,
-        'preamble': PRE,
+        'preamble': PRE + SEC,
+        'postamble': 'End Obj.\n',
         'items': [
             B_fun('intersect_slice_ranges', 'intersect_slice_ranges',
                   [('current_start', 'optB'), ('current_stop', 'optB'), ('new_start', 'optB'), ('new_stop', 'optB')],
                   ('optB', 'optB'),
                   pyparams=['current_start', 'current_stop', 'new_start', 'new_stop']),
-            B_fun('SubsetFederatedData.slice', 'subset_slice_ids',
-                  [('client_ids0', 'ids'), ('start', 'optB'), ('stop', 'optB')], 'ids',
-                  names={'self._client_ids': 'client_ids0'}, pyparams=['self', 'start', 'stop'],
-                  select=_assign_group('client_ids'), result='client_ids'),
+            O_expr('ClientPreprocessor.append', 'client_preprocessor_append', [('fns', 'fns'), ('fn', 'fn')], 'fns',
+                   _ret_value, names={'self._fns': 'fns'}, ctors={'ClientPreprocessor': (['fns'], {})}, shape=_only_return),
+            O_chain_call('ClientPreprocessor.__call__', 'client_preprocessor_call', 'fns', 'applyc', True),
+            # SubsetFederatedData
+            O_fun('SubsetFederatedData.__init__', 'subset_init',
+                  [('have', 'ids'), ('client_ids', 'ids'), ('validate', 'bool')], 'ids',
+                  names={'self._client_ids': 'result_ids'}, pyparams=['self', 'base', 'client_ids', 'validate'],
+                  subs={'base.client_ids()': ('have', 'ids')}, ignore_assign=['self._base'], result='result_ids'),
+            O_fun('SubsetFederatedData.slice', 'subset_slice',
+                  [('base_result', 'base'), ('client_ids0', 'ids'), ('start', 'optB'), ('stop', 'optB')], ('base', 'ids'),
+                  names=SUBNAMES, pyparams=['self', 'start', 'stop'], ctors=SUB_CTOR,
+                  calls={'self._base.slice': _base_call('slice', ['start', 'stop'])}),
+            O_expr('SubsetFederatedData.preprocess_client', 'subset_preprocess_client',
+                   [('base_result', 'base'), ('client_ids0', 'ids')], ('base', 'ids'), _ret_value,
+                   names=SUBNAMES, ctors=SUB_CTOR, shape=_only_return,
+                   calls={'self._base.preprocess_client': _base_call('preprocess_client', ['fn'])}),
+            O_expr('SubsetFederatedData.preprocess_batch', 'subset_preprocess_batch',
+                   [('base_result', 'base'), ('client_ids0', 'ids')], ('base', 'ids'), _ret_value,
+                   names=SUBNAMES, ctors=SUB_CTOR, shape=_only_return,
+                   calls={'self._base.preprocess_batch': _base_call('preprocess_batch', ['fn'])}),
+            O_expr('SubsetFederatedData.num_clients', 'subset_num_clients', [('client_ids0', 'ids')], 'Z', _ret_value,
+                   names=SUBNAMES, shape=_only_return),
+            O_expr('SubsetFederatedData.client_ids', 'subset_client_ids', [('client_ids0', 'ids')], 'ids', _ret_value,
+                   names=SUBNAMES, shape=_only_return),
+            O_expr('SubsetFederatedData.clients', 'subset_clients_request', [('client_ids0', 'ids')], 'ids',
+                   lambda fd: _strip_doc(fd.body)[0].value.value.args[0], names=SUBNAMES, shape=_yield_from_get_clients),
+            # guards: True = raise KeyError
+            O_expr('SubsetFederatedData.get_client', 'subset_get_client_raises', [('client_ids0', 'ids'), ('client_id', 'B')], 'bool',
+                   lambda fd: _strip_doc(fd.body)[0].test, names=SUBNAMES, shape=_guarded_delegate('get_client')),
+            O_expr('SubsetFederatedData.client_size', 'subset_client_size_raises', [('client_ids0', 'ids'), ('client_id', 'B')], 'bool',
+                   lambda fd: _strip_doc(fd.body)[0].test, names=SUBNAMES, shape=_guarded_delegate('client_size')),
+            O_expr('SubsetFederatedData.get_clients', 'subset_get_clients_raises', [('client_ids0', 'ids'), ('client_id', 'B')], 'bool',
+                   lambda fd: _loop(fd).body[0].test, names=SUBNAMES,
+                   shape=_for_yield('self._base.get_clients(client_ids)', ['client_id', 'dataset'], 'raise')),
+            O_expr('SubsetFederatedData.get_clients', 'subset_get_clients_item', [('client_id', 'B'), ('dataset', 'D')], ('B', 'D'),
+                   lambda fd: _loop(fd).body[1].value.value,
+                   shape=_for_yield('self._base.get_clients(client_ids)', ['client_id', 'dataset'], 'raise')),
+            O_expr('SubsetFederatedData.client_sizes', 'subset_client_sizes_keeps', [('client_ids0', 'ids'), ('client_id', 'B')], 'bool',
+                   lambda fd: _loop(fd).body[0].test, names=SUBNAMES,
+                   shape=_for_yield('self._base.client_sizes()', ['client_id', 'size'], 'keep')),
         ],
     },
     'Gen_in_memory_federated_data': {
         'src': IM,
-        'preamble': PRE,
+        'preamble': PRE + 'From FV Require Import gen.Gen_client_datasets_pre gen.Gen_federated_data.\n' + SEC,
+        'postamble': 'End Obj.\n',
         'items': [
             B_fun('InMemoryFederatedData.slice', 'in_memory_slice_ids',
                   [('client_ids0', 'ids'), ('start', 'optB'), ('stop', 'optB')], 'ids',
                   names={'self._client_ids': 'client_ids0'}, pyparams=['self', 'start', 'stop'],
                   select=_assign_group('client_ids'), result='client_ids'),
+            # the constructor call that ends slice()
+            O_expr('InMemoryFederatedData.slice', 'in_memory_slice_ctor',
+                   [('mapping', 'mapping'), ('client_ids', 'ids'), ('pc', 'fns'), ('pb', 'gfns')], ('optmapping', 'fns', 'gfns'),
+                   lambda fd: fd.body[-1].value, names=PRE_NAMES, ctors=MEM_CTOR_SLICE,
+                   shape=lambda fd: None if isinstance(fd.body[-1], ast.Return) else 'slice does not end with a return'),
+            O_expr('InMemoryFederatedData.preprocess_client', 'in_memory_preprocess_client',
+                   [('mapping', 'mapping'), ('pc', 'fns'), ('pb', 'gfns'), ('fn', 'fn')], ('mapping', 'fns', 'gfns'), _ret_value,
+                   names=PRE_NAMES, ctors=MEM_CTOR, calls=CALLS_PRE, shape=_only_return),
+            O_expr('InMemoryFederatedData.preprocess_batch', 'in_memory_preprocess_batch',
+                   [('mapping', 'mapping'), ('pc', 'fns'), ('pb', 'gfns'), ('fn', 'gfn')], ('mapping', 'fns', 'gfns'), _ret_value,
+                   names=PRE_NAMES, ctors=MEM_CTOR, calls=CALLS_PRE, shape=_only_return),
+            # _client_dataset: `stored` stands for self._client_to_data_mapping[client_id] (KeyError when absent)
+            O_fun('InMemoryFederatedData._client_dataset', 'in_memory_client_dataset',
+                  [('pc', 'fns'), ('pb', 'gfns'), ('client_id', 'B'), ('stored', 'E')], ('E', 'gfns'),
+                  names=PRE_NAMES, pyparams=['self', 'client_id'],
+                  subs={'self._client_to_data_mapping[client_id]': ('stored', 'E')},
+                  ctors={'client_datasets.ClientDataset': (['E', 'gfns'], {})},
+                  calls={'self._preprocess_client': _method_call('fns', 'client_preprocessor_call applyc {0} {1} {2}', ['B', 'E'], 'E', 'func')}),
+            O_expr('InMemoryFederatedData.num_clients', 'in_memory_num_clients', [('client_ids0', 'ids')], 'Z', _ret_value,
+                   names=PRE_NAMES, shape=_only_return),
+            O_expr('InMemoryFederatedData.client_ids', 'in_memory_client_ids', [('client_ids0', 'ids')], 'ids', _ret_value,
+                   names=PRE_NAMES, shape=_only_return),
+            O_expr('InMemoryFederatedData.clients', 'in_memory_clients_request', [('client_ids0', 'ids')], 'ids',
+                   lambda fd: _strip_doc(fd.body)[0].value.value.args[0], names=PRE_NAMES, shape=_yield_from_get_clients),
+            O_expr('InMemoryFederatedData.get_clients', 'in_memory_get_clients_item',
+                   [('client_id', 'B')], ('B', 'R'), lambda fd: _loop(fd).body[0].value.value,
+                   calls={'self._client_dataset': ('client_dataset_of {0}', ['B'], 'R')},
+                   shape=_for_yield('client_ids', ['client_id'], None), extra_params='(client_dataset_of : bytes -> R)'),
         ],
     },
     'Gen_sqlite_federated_data': {
         'src': SQ,
-        'preamble': PRE,
+        'preamble': PRE + 'From FV Require Import gen.Gen_client_datasets_pre gen.Gen_federated_data.\n' + SEC,
+        'postamble': 'End Obj.\n',
         'items': [
             B_fun('SQLiteFederatedData._range_where', 'sqlite_range_where',
                   [('start', 'optB'), ('stop', 'optB'), ('client_id', 'B')], 'sqlpred',
@@ -406,6 +906,34 @@ MODULES = {
                    [('start', 'optB'), ('stop', 'optB'), ('client_id', 'B')], SELF_RANGE),
             B_test('SQLiteFederatedData.client_size', 'sqlite_client_size_in_range',
                    [('start', 'optB'), ('stop', 'optB'), ('client_id', 'B')], SELF_RANGE),
+            O_fun('SQLiteFederatedData.slice', 'sqlite_slice',
+                  [('start0', 'optB'), ('stop0', 'optB'), ('pc', 'fns'), ('pb', 'gfns'), ('start', 'optB'), ('stop', 'optB')],
+                  ('optB', 'optB', 'fns', 'gfns'),
+                  names={'self._start': 'start0', 'self._stop': 'stop0', 'self._preprocess_client': 'pc', 'self._preprocess_batch': 'pb'},
+                  pyparams=['self', 'start', 'stop'], ctors=SQL_CTOR,
+                  partial_calls={'federated_data.intersect_slice_ranges':
+                                 ('intersect_slice_ranges', ['optB', 'optB', 'optB', 'optB'], ['optB', 'optB'])}),
+            O_expr('SQLiteFederatedData.preprocess_client', 'sqlite_preprocess_client',
+                   [('start', 'optB'), ('stop', 'optB'), ('pc', 'fns'), ('pb', 'gfns'), ('fn', 'fn')],
+                   ('optB', 'optB', 'fns', 'gfns'), _ret_value, names=PRE_NAMES, ctors=SQL_CTOR, calls=CALLS_PRE, shape=_only_return),
+            O_expr('SQLiteFederatedData.preprocess_batch', 'sqlite_preprocess_batch',
+                   [('start', 'optB'), ('stop', 'optB'), ('pc', 'fns'), ('pb', 'gfns'), ('fn', 'gfn')],
+                   ('optB', 'optB', 'fns', 'gfns'), _ret_value, names=PRE_NAMES, ctors=SQL_CTOR, calls=CALLS_PRE, shape=_only_return),
+            # _client_dataset: `stored` stands for self._parse_examples(data)
+            O_fun('SQLiteFederatedData._client_dataset', 'sqlite_client_dataset',
+                  [('pc', 'fns'), ('pb', 'gfns'), ('client_id', 'B'), ('stored', 'E')], ('E', 'gfns'),
+                  names=PRE_NAMES, pyparams=['self', 'client_id', 'data'],
+                  subs={'self._parse_examples(data)': ('stored', 'E')},
+                  ctors={'client_datasets.ClientDataset': (['E', 'gfns'], {})},
+                  calls={'self._preprocess_client': _method_call('fns', 'client_preprocessor_call applyc {0} {1} {2}', ['B', 'E'], 'E', 'func')}),
+            O_expr('SQLiteFederatedData.get_clients', 'sqlite_get_clients_item',
+                   [('client_id', 'B')], ('B', 'R'), lambda fd: _loop(fd).body[0].value.value,
+                   calls={'self.get_client': ('get_client_of {0}', ['B'], 'R')},
+                   shape=_for_yield('client_ids', ['client_id'], None), extra_params='(get_client_of : bytes -> R)'),
+            O_expr('SQLiteFederatedData.clients', 'sqlite_clients_item',
+                   [('k', 'B'), ('v', 'E')], ('B', 'R'), lambda fd: _loop(fd).body[0].value.value,
+                   calls={'self._client_dataset': ('client_dataset_of {0} {1}', ['B', 'E'], 'R')},
+                   shape=_for_yield('self._read_clients()', ['k', 'v'], None), extra_params='(client_dataset_of : bytes -> E -> R)'),
         ],
     },
 }
